@@ -7,7 +7,14 @@ package gaterig
 
 import (
 	"bytes"
+	"crypto/ecdsa"
+	"crypto/elliptic"
+	"crypto/rand"
+	"crypto/tls"
+	"crypto/x509"
+	"crypto/x509/pkix"
 	"errors"
+	"math/big"
 	"io"
 	"net"
 	"net/http"
@@ -22,7 +29,7 @@ import (
 type Ev struct {
 	Seq  int    `json:"seq"`
 	Us   int64  `json:"us"`
-	K    string `json:"k"`    // Acc Addr FirstByte ReqRead Fwd RTLeave WrCall Wrote SockClose SockCloseC ClientGone CtxExpire SdCall SdRet ClCall ClRet LClose SrvRet ClosingSeen CntIs
+	K    string `json:"k"`    // Acc TlsConn HsDone Addr FirstByte ReqRead Fwd RTLeave WrCall Wrote SockClose SockCloseC ClientGone CtxExpire SdCall SdRet ClCall ClRet LClose SrvRet ClosingSeen CntIs
 	Conn int    `json:"conn"` // connection id (accept order), -1 if none
 	A    bool   `json:"a,omitempty"`
 	B    bool   `json:"b,omitempty"`
@@ -188,6 +195,33 @@ func (r *Rig) connOfGoroutine() int {
 type Listener struct {
 	net.Listener
 	Rig *Rig
+	// TLS, if set, makes Accept hand out *tls.Conn (as forwarder's own listener does for an https
+	// proxy): martian then runs the handshake inside the handler.  The events TlsConn (right after
+	// Acc) and HsDone (handshake complete) are recorded.
+	TLS *tls.Config
+}
+
+// SelfSigned returns a server TLS configuration with a fresh self-signed certificate.
+func SelfSigned() (*tls.Config, error) {
+	key, err := ecdsa.GenerateKey(elliptic.P256(), rand.Reader)
+	if err != nil {
+		return nil, err
+	}
+	tpl := &x509.Certificate{
+		SerialNumber: big.NewInt(1), Subject: pkix.Name{CommonName: "gaterig"},
+		NotBefore: time.Now().Add(-time.Hour), NotAfter: time.Now().Add(24 * time.Hour),
+		KeyUsage: x509.KeyUsageDigitalSignature, ExtKeyUsage: []x509.ExtKeyUsage{x509.ExtKeyUsageServerAuth},
+		DNSNames: []string{"localhost"}, IPAddresses: []net.IP{net.IPv4(127, 0, 0, 1)},
+	}
+	der, err := x509.CreateCertificate(rand.Reader, tpl, tpl, &key.PublicKey, key)
+	if err != nil {
+		return nil, err
+	}
+	// TLS 1.2 only: there the server finishes the handshake before the client does, so the moment the
+	// client's Handshake returns is a sound "handshake done" marker for the server side as well
+	// (no server-side callback exists for that moment).
+	return &tls.Config{Certificates: []tls.Certificate{{Certificate: [][]byte{der}, PrivateKey: key}},
+		MinVersion: tls.VersionTLS12, MaxVersion: tls.VersionTLS12}, nil
 }
 
 func (l *Listener) Accept() (net.Conn, error) {
@@ -202,7 +236,14 @@ func (l *Listener) Accept() (net.Conn, error) {
 	r.conns = append(r.conns, gc)
 	// the Acc event is appended while the id is being assigned, so ids follow the log order
 	r.Log.Add(Ev{K: "Acc", Conn: gc.id})
+	if l.TLS != nil {
+		r.Log.Add(Ev{K: "TlsConn", Conn: gc.id})
+		gc.awaitFirst.Store(false) // handshake records are not request bytes
+	}
 	r.mu.Unlock()
+	if l.TLS != nil {
+		return tls.Server(gc, l.TLS), nil
+	}
 	return gc, nil
 }
 
@@ -365,6 +406,17 @@ func (r *Rig) OnWrote(res *http.Response, err error) {
 	}
 	r.mu.Unlock()
 	r.Log.Add(Ev{K: "Wrote", Conn: id, A: cl, B: err != nil})
+}
+
+// HandshakeDone is called by the scenario when the client side of the listener TLS handshake of
+// connection id has returned (TLS 1.2: the server side is complete by then).
+func (r *Rig) HandshakeDone(id int) {
+	r.mu.Lock()
+	if id >= 0 && id < len(r.conns) {
+		r.conns[id].awaitFirst.Store(true)
+	}
+	r.mu.Unlock()
+	r.Log.Add(Ev{K: "HsDone", Conn: id})
 }
 
 // ErrGone is a helper for callers that need a distinguishable error.
